@@ -3,6 +3,7 @@ import NutsModel.C11.Revocation
 import NutsModel.C11.Wire
 import NutsModel.C11.ValidAt
 import NutsModel.C11.CredStatus
+import NutsModel.C11.Reprocess
 import NutsModel.Facts.C11
 open Lean Nuts.Drv Nuts.C11 Nuts
 
@@ -421,6 +422,17 @@ def step (w : World) (j : Json) : World × List String :=
       | _ => .transient (jNat j "wraps" + 1)      -- RegisterRevocation wraps once more
     let (o, n') := handleRevocationEvent keyEnv w.b r fault
     ({ w with b := n' }, ["adeliver " ++ (match o with | .done => "done" | .retry => "retry" | .fatal => "fatal")])
+  | "areprocess" =>
+    let issuer := jStr j "issuer"
+    let r : Revocation := { subject := jStr j "subject", issuer := issuer, date := some 1
+                            proof := some { vm := issuer ++ "#k1", sig := "sig:" ++ issuer ++ "#k1" } }
+    let fault : StoreFault := match jStr j "fault" with
+      | "" => .none
+      | "other" => .other
+      | _ => .transient (jNat j "wraps" + 1)
+    let route := callbackRoute Nuts.Facts.C11.const_VcDocumentType Nuts.Facts.C11.const_RevocationLDDocumentType (jStr j "ct")
+    let (failed, n') := reprocess keyEnv w.b r fault route (!jBool j "nopayload")
+    ({ w with b := n' }, [s!"areprocess failed={failed}"])
   -- the ambassador's wiring (Configure): only payload events of revocation transactions reach RegisterRevocation
   | "awire" => (w, ["awire vcr_revocations:[rev=stored vc=- txevent=-] vcr_vcs:[rev=- vc=- txevent=-]"])
   | "averify" =>
